@@ -130,8 +130,11 @@ class Scanner:
     #
     def scan_verb(self, latex, start):
         def verb_err():
-            return utils.latex_error('bad \\verb argument',
-                                        start, latex, self.parms)[0]
+            # NB: close to the text end, the error mark comes in two tokens
+            toks = utils.latex_error('bad \\verb argument',
+                                        start, latex, self.parms)
+            return defs.TextToken(start, ''.join(t.txt for t in toks),
+                                        pos_fix=True)
         start_arg = start + len('\\verb')
         if start_arg >= self.max_pos:
             return verb_err()
@@ -157,8 +160,10 @@ class Scanner:
         pos += len('{verbatim}')
         end = latex.find('\\end{verbatim}', pos)
         if end < 0:
-            return utils.latex_error('missing end of verbatim',
-                                            start, latex, self.parms)[0]
+            toks = utils.latex_error('missing end of verbatim',
+                                            start, latex, self.parms)
+            return defs.TextToken(start, ''.join(t.txt for t in toks),
+                                            pos_fix=True)
         self.pos = end + len('\\end{verbatim}')
         return defs.VerbatimToken(pos, latex[pos:end], environ=True)
 
